@@ -328,7 +328,8 @@ impl<'a> DocGen<'a> {
                 ""
             };
             if !self.entities.is_empty() {
-                out.push_str(&format!(" [<!ENTITY e1 \"v1\"><!ENTITY e2 \"w &#38; w\">{}]", attlist));
+                let notation = if self.rng.pct(40) { "<!NOTATION n1 SYSTEM \"s1\"><!NOTATION n2 PUBLIC \"p2\">" } else { "" };
+                out.push_str(&format!(" [<!ENTITY e1 \"v1\"><!ENTITY e2 \"w &#38; w\">{}{}]", notation, attlist));
             } else if !attlist.is_empty() {
                 out.push_str(&format!(" [{}]", attlist));
             }
@@ -1088,6 +1089,9 @@ impl Gen {
         if self.rng.pct(15) && self.p.illegal_pct > 0 {
             self.fault("F1_readonly_map_mutation");
             return Some(Op::DtMap { doc, which: self.rng.below(4), name: self.rng.ps(&["e1", "e2", "nope"]).to_string() });
+        }
+        if self.rng.pct(6) {
+            return Some(Op::Probe { doc, which: self.rng.below(4) });
         }
         if self.rng.pct(12) && self.step_no > 6 {
             // fault F5: crash and restart from the serialisation; all handles into the document are lost
